@@ -270,6 +270,53 @@ def inst_index(blocks, spec):
                     cost=cost * max(blocks) ** 2, wall_s=600)
 
 
+_VREC = {}
+
+
+def _fake_vindex_array(x, dict_indexes):
+    _VREC["idx"] = dict_indexes
+    return "gathered"
+
+
+def inst_vindex_bounds(npoints, rank):
+    """.vindex with integer lists: the bounds guard and the wrap of negative entries (the arithmetic part of
+    _vindex; the gather itself is NumPy code on concrete index arrays and is not decided)"""
+    import numpy as np
+
+    V = "dask_array.slicing._vindex"
+
+    def body(E):
+        rec = _VREC
+        rec.clear()
+        w = world("C12v", E.symbolic, [V, U, B], extra=dict(_vindex_array=_fake_vindex_array))
+        shape = tuple(E.int(f"n{a}", 1) for a in range(rank))
+
+        class X:
+            ndim = rank
+
+            def __init__(self):
+                self.shape = shape
+
+            def __getitem__(self, ix):
+                return self
+
+        ind = [E.int(f"i{k}") for k in range(npoints)]
+        indexes = (np.array(ind, dtype=object),) + (slice(None),) * (rank - 1)
+        n = shape[0]
+        ok = AND(*[AND(v >= -n, v < n) for v in ind])
+        try:
+            out = w.fn(V, "_vindex")(X(), *indexes)
+        except IndexError:
+            E.ensure("IndexError-only-when-out-of-bounds", NOT(ok))
+            return
+        E.ensure("out-of-bounds-raises", ok)
+        got = rec["idx"][0]
+        E.observe("normalised", list(got))
+        E.ensure("wrapped-like-numpy", AND(*[g == ITE(v < 0, v + n, v) for g, v in zip(got, ind)]))
+
+    return Instance(f"vindex_bounds[points={npoints},rank={rank}]", body, dict(points=npoints, rank=rank), unit="_vindex (bounds guard)")
+
+
 def instances(tier):
     q = tier == "quick"
     out = []
@@ -307,8 +354,8 @@ def instances(tier):
     ]
     if not q:
         two += [
-            ((3, 3), ((1, 1, 2), (1, 1, -2))),
-            ((3, 3), ((1, 1, -3), (1, 1, 3))),
+            ((3, 2), ((1, 1, 2), (1, 1, -2))),
+            ((2, 3), ((1, 1, -3), (1, 1, 3))),
             ((3, 2), ("i", (1, 1, -2))),
             ((2, 3), ("n", (1, 1, None), "n", (1, 1, -1))),
             ((3, 3), ((1, 1, None), (1, 1, None))),
@@ -316,4 +363,7 @@ def instances(tier):
         ]
     for b, s in two:
         out.append(inst_index(b, s))
+    out.append(inst_vindex_bounds(1, 1))
+    out.append(inst_vindex_bounds(2, 1))
+    out.append(inst_vindex_bounds(2, 2))
     return out
